@@ -286,6 +286,70 @@ func scannerMachine(w *World) *machine {
 	return nil
 }
 
+func init() {
+	register(&Rule{Name: "EQU.textual", Min: 2, Doc: "an EQU name is replaced by exactly the tokens of its value, nothing added", Run: ruleEquTextual})
+}
+
+// ruleEquTextual: EQU substitution is textual ("x equ 2+3", "x*2" reads
+// 2+3*2).  At every site that replaces a name by the token list found for it
+// in a symbol table (a map from names to token lists), the iteration that
+// found the name appends that list and nothing else to the output.
+func ruleEquTextual(w *World, r *RuleResult) {
+	d := newDedup(r)
+	sites := 0
+	for _, fn := range libRoots(w) {
+		paths, err := w.Paths(fn)
+		if err != nil {
+			continue
+		}
+		for _, p := range paths {
+			if p.End != "backedge" {
+				continue
+			}
+			// the successful lookups of this iteration
+			var found []*T
+			for _, cd := range p.Conds {
+				a := cd.Atom
+				if cd.Val && a.Op == "ext" && a.C == 2 && len(a.A) == 1 && a.A[0].Op == "lookup" {
+					// (the name looked up is the token of this iteration)
+					mine := a.A[0].A[1].contains(func(x *T) bool { return x.Op == "loopvar" })
+					if mt, ok := a.A[0].A[0].Ty.(*types.Map); ok && mine && typeName(mt.Elem()) == "[]token" {
+						found = append(found, a.A[0])
+					}
+				}
+			}
+			if len(found) != 1 {
+				continue
+			}
+			val := (&T{Op: "ext", C: 1, A: []*T{found[0]}}).Key()
+			good, n, subst := true, 0, false
+			var pos *Event
+			for i := range p.Events {
+				e := &p.Events[i]
+				if e.Kind != "builtin" || e.Method != "append" || len(e.Args) != 2 || typeName(e.Args[0].Ty) != "[]token" {
+					continue
+				}
+				n++
+				if stripConv(e.Args[1]).Key() != val {
+					good = false
+				} else {
+					subst = true
+					pos = e
+				}
+			}
+			if !subst {
+				continue // the value is not appended to a token list here: no substitution on this path
+			}
+			sites++
+			d.add(good && n == 1, fn.Name()+"/value-only", w.Pos(instrPosE(pos)), "the iteration that found the name appends its value and nothing else", "where a name is replaced by its EQU value, other tokens are added around it: substitution is no longer textual ('x equ 2+3', 'x*2' must read 2+3*2)")
+		}
+	}
+	if sites == 0 {
+		r.undecided("sites", "-", "no loop replaces a name by the token list a symbol table holds for it")
+	}
+	d.flush()
+}
+
 func ruleEquAgree(w *World, r *RuleResult) {
 	m := scannerMachine(w)
 	if m == nil {
